@@ -289,4 +289,155 @@ theorem mf_parseMultilineBlock : MF (α := α) (fun _ => True) (parseMultilineBl
   unfold parseMultilineBlock; mf
 macro_rules | `(tactic| mf_leaf) => `(tactic| with_reducible exact mf_parseMultilineBlock)
 
+/-! ### the result of `metadata_entry` does not depend on the event queue or the panic flag -/
+
+/-- the part of the parser state that parsing decisions depend on -/
+structure Core where
+  toks : List Tok
+  cur : Nat
+  ext : Ext
+  cs : CharSpec
+
+def BP.core (s : BP α) : Core := ⟨s.toks, s.cur, s.ext, s.cs⟩
+
+/-- on states with the same core, `f` and `f'` return the same value and end in the same core -/
+structure Sim {β : Type} (f f' : P α β) : Prop where
+  run : ∀ s s', s.core = s'.core → (f s).1 = (f' s').1 ∧ (f s).2.core = (f' s').2.core
+
+theorem Sim.pure {β : Type} (a : β) : Sim (α := α) (pure a) (pure a) := ⟨fun _ _ h => ⟨rfl, h⟩⟩
+
+theorem Sim.bind {β γ : Type} {f f' : P α β} {g g' : β → P α γ}
+    (hf : Sim f f') (hg : ∀ a, Sim (g a) (g' a)) : Sim (f >>= g) (f' >>= g') := by
+  refine ⟨fun s s' h => ?_⟩
+  have h1 := hf.run s s' h
+  have h2 := (hg (f s).1).run (f s).2 (f' s').2 h1.2
+  have e1 : (f >>= g) s = g (f s).1 (f s).2 := rfl
+  have e2 : (f' >>= g') s' = g' (f' s').1 (f' s').2 := rfl
+  rw [e1, e2, ← h1.1]
+  exact h2
+
+theorem Sim.get_bind {γ : Type} {g g' : BP α → P α γ}
+    (hg : ∀ s0 s0', s0.core = s0'.core → Sim (g s0) (g' s0')) :
+    Sim ((get : P α (BP α)) >>= g) ((get : P α (BP α)) >>= g') :=
+  ⟨fun s s' h => (hg s s' h).run s s' h⟩
+
+theorem Sim.modify (k : BP α → BP α) (h : ∀ s s', s.core = s'.core → (k s).core = (k s').core) :
+    Sim (α := α) (modify k : P α Unit) (modify k : P α Unit) := ⟨fun s s' hc => ⟨rfl, h s s' hc⟩⟩
+
+theorem core_eq {s s' : BP α} (h : s.core = s'.core) :
+    s.toks = s'.toks ∧ s.cur = s'.cur ∧ s.ext = s'.ext ∧ s.cs = s'.cs :=
+  ⟨congrArg Core.toks h, congrArg Core.cur h, congrArg Core.ext h, congrArg Core.cs h⟩
+
+syntax "sm_leaf" : tactic
+macro_rules | `(tactic| sm_leaf) => `(tactic| with_reducible exact Sim.pure _)
+macro_rules | `(tactic| sm_leaf) => `(tactic| assumption)
+
+macro "sm" : tactic => `(tactic| repeat' (first
+  | intro _
+  | sm_leaf
+  | dsimp only
+  | with_reducible apply Sim.bind
+  | split))
+
+/-- side condition of `Sim.modify` for updates that only touch / depend on the core -/
+macro "core_tac" : tactic => `(tactic| (
+  intro s s' h
+  obtain ⟨h1, h2, h3, h4⟩ := core_eq h
+  simp only [BP.core, Core.mk.injEq] at h ⊢
+  simp [h1, h2, h3, h4]))
+
+theorem sim_panicWith (site : String) : Sim (α := α) (panicWith site) (panicWith site) := by
+  unfold panicWith
+  apply Sim.modify
+  intro s s' h
+  have e : ∀ s : BP α, (if s.panic.isNone then { s with panic := some site } else s).core = s.core := by
+    intro s; split <;> rfl
+  rw [e, e]; exact h
+macro_rules | `(tactic| sm_leaf) => `(tactic| with_reducible exact sim_panicWith _)
+
+theorem sim_pushEv (e : Ev α) : Sim (α := α) (pushEv e) (pushEv e) := by
+  unfold pushEv; apply Sim.modify; intro s s' h; exact h
+theorem sim_perr (k : String) (l : List Span) : Sim (α := α) (perr k l) (perr k l) := sim_pushEv _
+theorem sim_pwarn (k : String) (l : List Span) : Sim (α := α) (pwarn k l) (pwarn k l) := sim_pushEv _
+macro_rules | `(tactic| sm_leaf) => `(tactic| with_reducible exact sim_perr _ _)
+macro_rules | `(tactic| sm_leaf) => `(tactic| with_reducible exact sim_pwarn _ _)
+
+theorem sim_restToks : Sim (α := α) restToks restToks := by
+  unfold restToks
+  apply Sim.get_bind
+  intro s0 s0' h
+  obtain ⟨h1, h2, _, _⟩ := core_eq h
+  rw [h1, h2]; exact Sim.pure _
+macro_rules | `(tactic| sm_leaf) => `(tactic| with_reducible exact sim_restToks)
+
+theorem sim_peekK : Sim (α := α) peekK peekK := by
+  unfold peekK
+  apply Sim.get_bind
+  intro s0 s0' h
+  obtain ⟨h1, h2, _, _⟩ := core_eq h
+  rw [h1, h2]; exact Sim.pure _
+macro_rules | `(tactic| sm_leaf) => `(tactic| with_reducible exact sim_peekK)
+theorem sim_atK (k : TK) : Sim (α := α) (atK k) (atK k) := by unfold atK; sm
+macro_rules | `(tactic| sm_leaf) => `(tactic| with_reducible exact sim_atK _)
+
+theorem sim_nextToken : Sim (α := α) nextToken nextToken := by
+  refine ⟨fun s s' h => ?_⟩
+  obtain ⟨h1, h2, h3, h4⟩ := core_eq h
+  simp only [nextToken, bind, StateT.bind, get, getThe, MonadStateOf.get, StateT.get, set, pure]
+  rw [← h1, ← h2]
+  cases s.toks[s.cur]? with
+  | none => exact ⟨rfl, h⟩
+  | some t =>
+    refine ⟨rfl, ?_⟩
+    simp [BP.core, StateT.bind, StateT.set, StateT.pure, h3, h4]
+    exact ⟨rfl, rfl, rfl, rfl⟩
+macro_rules | `(tactic| sm_leaf) => `(tactic| with_reducible exact sim_nextToken)
+
+theorem sim_bumpAny : Sim (α := α) bumpAny bumpAny := by unfold bumpAny; sm
+macro_rules | `(tactic| sm_leaf) => `(tactic| with_reducible exact sim_bumpAny)
+theorem sim_bump (k : TK) : Sim (α := α) (bump k) (bump k) := by unfold bump; sm
+macro_rules | `(tactic| sm_leaf) => `(tactic| with_reducible exact sim_bump _)
+theorem sim_consumeK (k : TK) : Sim (α := α) (consumeK k) (consumeK k) := by unfold consumeK; sm
+macro_rules | `(tactic| sm_leaf) => `(tactic| with_reducible exact sim_consumeK _)
+
+theorem sim_addCur (n : Nat) : Sim (α := α) (modify fun s => { s with cur := s.cur + n } : P α Unit)
+    (modify fun s => { s with cur := s.cur + n }) := by
+  apply Sim.modify; core_tac
+macro_rules | `(tactic| sm_leaf) => `(tactic| with_reducible exact sim_addCur _)
+
+theorem sim_untilK (f : TK → Bool) : Sim (α := α) (untilK f) (untilK f) := by unfold untilK; sm
+macro_rules | `(tactic| sm_leaf) => `(tactic| with_reducible exact sim_untilK _)
+theorem sim_consumeRest : Sim (α := α) consumeRest consumeRest := by unfold consumeRest; sm
+macro_rules | `(tactic| sm_leaf) => `(tactic| with_reducible exact sim_consumeRest)
+theorem sim_tokensSpanP (site : String) (ts : List Tok) : Sim (α := α) (tokensSpanP site ts) (tokensSpanP site ts) := by
+  unfold tokensSpanP; sm
+macro_rules | `(tactic| sm_leaf) => `(tactic| with_reducible exact sim_tokensSpanP _ _)
+
+theorem sim_baseOffset : Sim (α := α) baseOffset baseOffset := by
+  unfold baseOffset
+  apply Sim.get_bind
+  intro s0 s0' h
+  obtain ⟨h1, _, _, _⟩ := core_eq h
+  rw [h1]; exact Sim.pure _
+macro_rules | `(tactic| sm_leaf) => `(tactic| with_reducible exact sim_baseOffset)
+
+theorem sim_currentOffset : Sim (α := α) currentOffset currentOffset := by
+  unfold currentOffset
+  apply Sim.get_bind
+  intro s0 s0' h
+  obtain ⟨h1, h2, _, _⟩ := core_eq h
+  rw [h1, h2]; sm
+macro_rules | `(tactic| sm_leaf) => `(tactic| with_reducible exact sim_currentOffset)
+
+theorem sim_bpSpan : Sim (α := α) bpSpan bpSpan := by
+  unfold bpSpan
+  apply Sim.get_bind
+  intro s0 s0' h
+  obtain ⟨h1, _, _, _⟩ := core_eq h
+  rw [h1]; sm
+macro_rules | `(tactic| sm_leaf) => `(tactic| with_reducible exact sim_bpSpan)
+
+theorem sim_bpText (o : Nat) (ts : List Tok) : Sim (α := α) (bpText o ts) (bpText o ts) := by unfold bpText; sm
+macro_rules | `(tactic| sm_leaf) => `(tactic| with_reducible exact sim_bpText _ _)
+
 end Cook
